@@ -27,6 +27,8 @@ def check(run):
     quick = run.tier == "quick"
     run.regenerate()
     run.lean_props(common.modules_for("C18"))
+    from .. import glue_grid
+    glue_grid.corr_copy(run, quick)   # Lean model of the copy/pickle hooks vs the real Grid class
     rng = run.rng
     objs = []
     for s in range(-3, 4):
